@@ -115,7 +115,7 @@ template <class P> struct B28 {
         const V3 qdRef = rr::mulv(NB, wL);                       // qdot for body-frame w
         const LD qdR[3] = {qdRef[0], qdRef[1], qdRef[2]};
         const LD qdn = rr::maxAbs(qdRef) + 1e-3L;
-        const LD hN = 1e-3L * ac1 / qdn;
+        const LD hN = 1e-4L * ac1 / qdn;
         const M3 NBdot = dMat([&](const LD* x) { return NB_ref(XYZ, x); }, qL, qdR, hN);
         const V3 qddRef = rr::mulv(NB, wdL) + rr::mulv(NBdot, wL);
         const V3 wP = rr::mulv(R, wL), bP = rr::mulv(R, wdL);     // same motion seen from the parent
@@ -224,7 +224,7 @@ template <class P> struct B28 {
         k.sameV("qdot", "convertAngVelToBodyFixed321Dot", toV(lz), zqd, tN * wn);
         k.sameV("qdot", "convertBodyFixed321DotToAngVel", toV(Rot::convertBodyFixed321DotToAngVel(q, lz)), rr::mulv(EiB, toV(lz)), t * zn);
         k.sameV("qdot", "convertBodyFixed321DotToAngVel(inverse)", toV(Rot::convertBodyFixed321DotToAngVel(q, lz)), wL, 2 * tN * wn);
-        const M3 EBdot = dMat([&](const LD* xx) { return NB_ref(ZYX, xx); }, qL, zqdA, 1e-3L * ac1 / zn);
+        const M3 EBdot = dMat([&](const LD* xx) { return NB_ref(ZYX, xx); }, qL, zqdA, 1e-4L * ac1 / zn);
         const V3 zqdd = rr::mulv(EB, wdL) + rr::mulv(EBdot, wL);
         const Vec3P lzdd = Rot::convertAngVelDotToBodyFixed321DotDot(q, w, wd);
         k.sameV("qdotdot", "convertAngVelDotToBodyFixed321DotDot", toV(lzdd), zqdd, (tN + 1e-11L) * wdn + (tD + 1e-11L / (ac1 * c1 * c1)) * zn * wn);
